@@ -777,7 +777,9 @@ func (g *Gen) totalOrder(s Schema) []Ord {
 	return out
 }
 
-// printKey mirrors `getRowKey`: the `%v` forms of the key columns, concatenated.
+// printKey mirrors `getRowKey` as it was before the repair of finding pk_print_collision: the
+// `%v` forms of the key columns, concatenated with no separator (the repaired function prefixes
+// every part with its length and never collides).
 func printKey(s Schema, r Row) string {
 	var b strings.Builder
 	for _, c := range s.PK {
@@ -821,9 +823,11 @@ func applyAsg(as []Asg, old Row) Row {
 }
 
 // CollisionRisk: two of the rows an UPDATE / DELETE may touch (stored rows and their updated
-// images) have different key values with the same printed key. The outcome of such a statement
-// depends on the order in which the engine's plan delivers the rows, so the generator pins the
-// order with a total ORDER BY.
+// images) have different key values with the same pre-fix printed key. On a tree without the
+// repair of pk_print_collision the outcome of such a statement depends on the order in which the
+// engine's plan delivers the rows, so the generator pins the order with a total ORDER BY (kept
+// after the repair: it makes the replay of a reverted repair deterministic and keeps the
+// generated stream of every seed unchanged).
 func CollisionRisk(s Schema, cur []Row, as []Asg) bool {
 	if len(s.PK) < 2 {
 		return false
